@@ -181,6 +181,29 @@ fn main() {
             other => println!("C18-REPLAY MISMATCH case=level reached by {words:?}: candidates {:?}, expected {want:?}", other.ok()),
         }
     }
+    // an option named through a HIDDEN alias awaits its value like any other spelling
+    let cli4 = || {
+        Command::new("prog")
+            .arg(Arg::new("format").long("format").short('f').alias("fmt").short_alias('F').visible_alias("form").action(ArgAction::Set).value_parser(["json", "yaml"]))
+            .arg(Arg::new("verbose").long("verbose").action(ArgAction::SetTrue))
+    };
+    for words in [vec!["--format", ""], vec!["--form", ""], vec!["--fmt", ""], vec!["-f", ""], vec!["-F", ""]] {
+        n += 1;
+        let args: Vec<OsString> = std::iter::once("prog").chain(words.iter().copied()).map(OsString::from).collect();
+        let idx = args.len() - 1;
+        let got = std::panic::catch_unwind(move || {
+            let mut cmd = cli4();
+            let mut v: Vec<String> = clap_complete::engine::complete(&mut cmd, args, idx, None)
+                .map(|c| c.into_iter().map(|c| c.get_value().to_string_lossy().into_owned()).collect())
+                .unwrap_or_default();
+            v.sort();
+            v
+        });
+        match got {
+            Ok(v) if v == ["json", "yaml"] => {}
+            other => println!("C18-REPLAY MISMATCH case=value candidates after {words:?}: {:?}, expected the option's values [json, yaml]", other.ok()),
+        }
+    }
     // the shell adapters (public trait methods) with every small argument vector, incl. the empty one (nothing after `--`)
     {
         use clap_complete::env::EnvCompleter;
